@@ -9,4 +9,5 @@ for d in /tmp/mut7/$P/.mut/m*; do
   mkdir -p $dst; cp $d/patch.diff $d/demo_test.go $d/notes.md $dst/ 2>/dev/null
   /verif/tools/verify_seed.sh $dst | tail -1
 done
+mkdir -p /verif/repro/round7; [ -f /tmp/mut7/$P/.mut/observations.md ] && cp /tmp/mut7/$P/.mut/observations.md /verif/repro/round7/$P-observations.md; for f in /tmp/mut7/$P/.mut/*_test.go /tmp/mut7/$P/.mut/obs*/*; do [ -f "$f" ] && cp "$f" /verif/repro/round7/$P-$(basename $f).txt; done
 git -C /repo worktree remove --force /tmp/mut7/$P && rm -f /tmp/mut7/$P.property.json /tmp/mut7/prompt-$P.txt
